@@ -76,6 +76,10 @@ type Task struct {
 	Killed             bool // ended by teardown
 	EscapedPanic       any  // a panic that unwound out of the goroutine's function
 	IsScriptGo         bool // spawned by a script `go` (through simrt.Go)
+	// Daemon: a party the verdict does not wait for (a goroutine left behind by an earlier run, a second call
+	// running under another context). It is scheduled like any other task, but the run is over ("done") as soon
+	// as every other task has finished. Tasks started by a daemon are daemons.
+	Daemon bool
 	solo               bool // Solo mode: never parks
 }
 
@@ -254,6 +258,7 @@ func Go(fn func()) {
 	s.mu.Unlock()
 	c := s.newTask(id)
 	c.IsScriptGo = true
+	c.Daemon = t.Daemon
 	s.start_(c, fn)
 }
 
@@ -367,6 +372,7 @@ func (s *Sim) Run() string {
 		ts := s.Tasks()
 		var elig []*Task
 		live, sleepers := 0, 0
+		judgedElig, judgedSleepers := 0, 0
 		var minWake time.Time
 		s.mu.Lock()
 		for _, t := range ts {
@@ -375,22 +381,52 @@ func (s *Sim) Run() string {
 				continue
 			case Sleeping:
 				sleepers++
+				if !t.Daemon {
+					judgedSleepers++
+				}
 				if minWake.IsZero() || t.wakeAt.Before(minWake) {
 					minWake = t.wakeAt
 				}
 			case Parked:
 				if t.ready == nil || t.ready() {
 					elig = append(elig, t)
+					if !t.Daemon {
+						judgedElig++
+					}
 				} else {
 					s.Contended++
 				}
 			}
-			live++
+			if !t.Daemon {
+				live++
+			}
 		}
 		s.mu.Unlock()
 		if live == 0 {
 			s.Outcome = "done"
 			return s.Outcome
+		}
+		var c uint16
+		if s.Step < len(s.Choices) {
+			c = s.Choices[s.Step]
+		}
+		// daemons (parties the verdict does not wait for) must not hold the clock back: when only they could run
+		// while a judged task sleeps, the choice decides between letting one of them run and letting time pass
+		if len(elig) > 0 && judgedElig == 0 && judgedSleepers > 0 && c == 0 {
+			if s.FakeElapsed() > s.MaxFake {
+				s.Outcome = "fakebudget"
+				return s.Outcome
+			}
+			if d := time.Until(minWake); d > 0 {
+				time.Sleep(d)
+			}
+			s.Counters["clock_advanced_past_daemons"]++
+			s.Step++ // the decision consumed a choice
+			if s.Step >= s.MaxSteps {
+				s.Outcome = "budget"
+				return s.Outcome
+			}
+			continue
 		}
 		if len(elig) == 0 {
 			// nothing runnable: clock, quiescence events, or deadlock
@@ -443,10 +479,6 @@ func (s *Sim) Run() string {
 		}
 
 		// choose
-		var c uint16
-		if s.Step < len(s.Choices) {
-			c = s.Choices[s.Step]
-		}
 		var pick *Task
 		prevIdx := -1
 		for i, t := range elig {
@@ -455,10 +487,17 @@ func (s *Sim) Run() string {
 			}
 		}
 		if c == 0 {
-			if prevIdx >= 0 {
+			if prevIdx >= 0 && !(elig[prevIdx].Daemon && judgedElig > 0) {
 				pick = elig[prevIdx]
 			} else {
+				// by default a daemon never keeps the processor while a judged task could run
 				pick = elig[0]
+				for _, t := range elig {
+					if !t.Daemon || judgedElig == 0 {
+						pick = t
+						break
+					}
+				}
 			}
 		} else {
 			others := elig
